@@ -6,14 +6,14 @@ The reader is the C function rewritten as a state machine over the lines `esl_ms
 the sequence lines of record `idx`.  Transitions are the C statements in order, error branches included. -/
 namespace EaselModel.Msafile
 
-/-- `esl_msafile_afa_SetInmap` -/
+/-- `esl_msafile_afa_SetInmap` (text mode: every graphic character except the record marker `>`) -/
 def afaInmap (abc : Option Abc) : InMap :=
   match abc with
   | some a => ⟨((a.inmap.setIfInBounds 0 a.unknown).setIfInBounds 32 dsqIGNORED)⟩
   | none =>
-    ⟨((Array.ofFn (n := 128) fun i =>
+    ⟨(((Array.ofFn (n := 128) fun i =>
         let c := UInt8.ofNat i.val
-        if i.val == 0 then (63 : UInt8) else if isGraph c then c else dsqILLEGAL).setIfInBounds 32 dsqIGNORED)⟩
+        if i.val == 0 then (63 : UInt8) else if isGraph c then c else dsqILLEGAL).setIfInBounds 62 dsqILLEGAL).setIfInBounds 32 dsqIGNORED)⟩
 
 /-- reader configuration: `afp->abc` (none = text mode) and `afp->inmap` -/
 structure Cfg where
